@@ -70,7 +70,7 @@ def corrupt(e, i):
     if ev == "hist":
         if i % 2 == 0 and e.get("hooked") == 1 and e["states"] and e["kind"] != "dec":
             e["states"][-1]["e"][2] += 1          # one ordinal too many in the recorded encoder table
-            return e, "C11.state"
+            return e, "diag.state"
         e["probes"][0]["eu"] = e["probes"][0]["eu"] + [1]
         return e, "C11.encodeBytes"
     if ev == "fault":
@@ -370,7 +370,9 @@ def hist_stage(run, tmp, hx, known, maxlen, nsim):
     summary = V.json.load(open(V.os.path.join(out, "summary.json")))
     summary["vectors_from_tlc"] = nv
     mine = owned(run.prop, v["rejs"])
-    summary["rejections_owned_by_other_properties"] = len(v["rejs"]) - len(mine)
+    summary["state_trace"] = dict(table_size_disagreements_with_HApiRef=sum(1 for x in v["rejs"] if x[1] == "diag.state"),
+                                  note="diagnostic only; sizes of the real tables read through the verif-tagged accessors after every operation")
+    summary["rejections_owned_by_other_properties"] = len([x for x in v["rejs"] if not x[1].startswith("diag.")]) - len(mine)
     v["rejs"] = mine
     run.add_validation("hist", v, summary)
     V.judge(run, known, mine, shards, dict(hx=hxargs, seed=run.seed, tier=run.tier, module="TraceCodec"))
